@@ -50,4 +50,37 @@ def processGroupDb (bs : Nat) (Hf : Bytes → Nat × Nat) (recorded : Option (Na
     if Hf out = r then { out := out, errcode := err, mark := .ok, usedCorrect := used }
     else { out := out, errcode := 1, mark := .ko, usedCorrect := used }
 
+/-! ## the whole run of `pff dup -d database` -/
+
+/-- one row of the report -/
+structure Row where
+  path    : Path
+  out     : Bytes            -- file written to the output tree
+  used    : List Nat         -- replicas that held the path
+  mark    : Mark             -- hash-correct column
+  errcode : Nat
+  deriving DecidableEq, Repr
+
+structure RunResult where
+  rows : List Row
+  exit : Nat
+  deriving Repr
+
+/-- the database row of a relative path: rows are keyed by the '/'-joined posix path
+(`relfilepath = path2unix(os.path.join(*components))`) -/
+def dbLookup (db : List (String × Nat × Nat)) (p : Path) : Option (Nat × Nat) :=
+  (db.find? (fun e => e.1 == "/".intercalate p)).map (·.2)
+
+/-- `synchronize_files` with a database on replicas given as trees: the alignment loop of C07, each
+group processed by `processGroupDb` with the row of its own path; exit status non-zero iff some
+group reported an error -/
+def dupWithDb (bs : Nat) (Hf : Bytes → Nat × Nat) (db : List (String × Nat × Nat)) (replicas : List Tree) :
+    RunResult :=
+  let cursors := replicas.map walk
+  let groups := align (remaining cursors + 1) cursors
+  let rows := groups.map (fun pg =>
+    let r := processGroupDb bs Hf (dbLookup db pg.1) pg.2
+    ({ path := pg.1, out := r.out, used := pg.2.map (·.1), mark := r.mark, errcode := r.errcode } : Row))
+  { rows := rows, exit := if rows.any (fun r => r.errcode ≠ 0) then 1 else 0 }
+
 end Pff.DupDb
